@@ -97,14 +97,14 @@ Qed.
 Theorem shared_in_graph : forall ds i q s j1 q1 j2 q2,
   quad_at ds i = Some q -> get_ref (qs q) = Some s ->
   quad_at ds j1 = Some q1 -> quad_at ds j2 = Some q2 ->
-  fst j1 = fst i -> fst j2 = fst i -> j1 <> i -> j2 <> i -> j1 <> j2 ->
+  fst j1 = fst i -> fst j2 = fst i -> j1 <> j2 ->
   get_ref (qo q1) = Some s -> get_ref (qo q2) = Some s ->
   ~ unshared_at ds i.
 Proof.
-  intros ds i q s j1 q1 j2 q2 Hq Hs H1 H2 G1 G2 N1 N2 N12 R1 R2 Hun.
+  intros ds i q s j1 q1 j2 q2 Hq Hs H1 H2 G1 G2 N12 R1 R2 Hun.
   destruct (Hun q s Hq Hs) as (Hlen & _).
-  assert (In j1 (referrers ds (fst i) i s)) by (apply referrers_iff; eauto 6).
-  assert (In j2 (referrers ds (fst i) i s)) by (apply referrers_iff; eauto 6).
+  assert (In j1 (referrers ds (fst i) s)) by (apply referrers_iff; eauto 6).
+  assert (In j2 (referrers ds (fst i) s)) by (apply referrers_iff; eauto 6).
   pose proof (two_in_length _ _ _ H H0 N12). lia.
 Qed.
 
@@ -112,7 +112,7 @@ Qed.
 Theorem shared_graph_node : forall ds i q s g j1 q1 j2 q2,
   is_map ds ->
   quad_at ds i = Some q -> get_ref (qs q) = Some s -> qg q = Some (NBlank g) ->
-  referrers ds (fst i) i s = [] ->
+  referrers ds (fst i) s = [] ->
   quad_at ds j1 = Some q1 -> quad_at ds j2 = Some q2 ->
   j1 <> i -> j2 <> i -> j1 <> j2 ->
   get_ref (qo q1) = Some (RBlank g) -> get_ref (qo q2) = Some (RBlank g) ->
@@ -130,19 +130,19 @@ Theorem shared_two_referrers_rejected : forall F prime ds i q s j1 q1 j2 q2,
   is_map ds ->
   quad_at ds i = Some q -> get_ref (qs q) = Some s ->
   quad_at ds j1 = Some q1 -> quad_at ds j2 = Some q2 ->
-  fst j1 = fst i -> fst j2 = fst i -> j1 <> i -> j2 <> i -> j1 <> j2 ->
+  fst j1 = fst i -> fst j2 = fst i -> j1 <> j2 ->
   get_ref (qo q1) = Some s -> get_ref (qo q2) = Some s ->
   exists t, entries_from_rdf F prime ds = Err t.
 Proof.
-  intros F prime ds i q s j1 q1 j2 q2 Hm Hq Hs H1 H2 G1 G2 N1 N2 N12 R1 R2.
+  intros F prime ds i q s j1 q1 j2 q2 Hm Hq Hs H1 H2 G1 G2 N12 R1 R2.
   apply (shared_rejected F prime ds i q Hm Hq).
-  exact (shared_in_graph ds i q s j1 q1 j2 q2 Hq Hs H1 H2 G1 G2 N1 N2 N12 R1 R2).
+  exact (shared_in_graph ds i q s j1 q1 j2 q2 Hq Hs H1 H2 G1 G2 N12 R1 R2).
 Qed.
 
 Theorem shared_graph_node_rejected : forall F prime ds i q s g j1 q1 j2 q2,
   is_map ds ->
   quad_at ds i = Some q -> get_ref (qs q) = Some s -> qg q = Some (NBlank g) ->
-  referrers ds (fst i) i s = [] ->
+  referrers ds (fst i) s = [] ->
   quad_at ds j1 = Some q1 -> quad_at ds j2 = Some q2 ->
   j1 <> i -> j2 <> i -> j1 <> j2 ->
   get_ref (qo q1) = Some (RBlank g) -> get_ref (qo q2) = Some (RBlank g) ->
@@ -254,32 +254,43 @@ Definition ds_blank_leaf : dataset := [
 Example ds_blank_leaf_err : is_err (entries_from_rdf F0 97 ds_blank_leaf) = true.
 Proof. vm_compute. reflexivity. Qed.
 
-(* ================= a refuted statement (finding) =================
-   One would expect "a node that refers to itself has no finite path, so the
-   dataset is rejected" (a reference cycle of length one).  The code (and hence
-   the faithful model) skips the asking quad itself when it looks for a parent
-   (`quad == q`), so the self-loop quad of a ROOT node has no parent while its
-   sibling quads take it as their parent: the dataset is accepted and the
-   top-level field `name` is filed under [next; name].  Witness replayed on /repo:
-   {"@id":"urn:c0","name":"n0","next":{"@id":"urn:c0"}}  (classifier
-   c01-accepted-self-reference). *)
-Definition self_reference (ds : dataset) : Prop :=
-  exists i q s, quad_at ds i = Some q /\ get_ref (qs q) = Some s /\ get_ref (qo q) = Some s.
+(* ================= self-reference =================
+   Before fix b73a54e the code skipped the asking quad when looking for a parent,
+   so the self-loop quad of a root node had no parent, its siblings took it as
+   theirs, and {"@id":"urn:c0","name":"n0","next":{"@id":"urn:c0"}} was accepted
+   with `name` filed under [next; name] (finding D25, witness kept below as a
+   regression Example).  Now the quad is its own parent: every statement of a
+   node that refers to itself sits below a cycle and the dataset is rejected. *)
+Theorem self_reference_rejected : forall F prime ds i q s i' q',
+  is_map ds ->
+  quad_at ds i = Some q -> get_ref (qs q) = Some s -> get_ref (qo q) = Some s ->
+  In (i', q') (value_quads ds) -> fst i' = fst i -> get_ref (qs q') = Some s ->
+  forall es, entries_from_rdf F prime ds <> Ok es.
+Proof.
+  intros F prime ds i q s i' q' Hm Hq Hs Ho Hin Hg Hs' es E.
+  assert (Hq' : quad_at ds i' = Some q').
+  { unfold value_quads in Hin. apply filter_In in Hin. destruct Hin as (Hin & _).
+    now apply positions_in. }
+  assert (Hi : In i (referrers ds (fst i) s)) by (apply referrers_iff; eauto).
+  (* both i and i' have the single referrer i *)
+  assert (Hpar : forall x qx, quad_at ds x = Some qx -> fst x = fst i -> get_ref (qs qx) = Some s ->
+                 parent ds x = Some i).
+  { intros x qx Hqx Hgx Hsx.
+    destruct (accepted_unshared F prime ds es x qx Hm E Hqx qx s Hqx Hsx) as (Hlen & _).
+    unfold parent. rewrite Hqx, Hsx, Hgx.
+    rewrite Hgx in Hlen.
+    destruct (referrers ds (fst i) s) as [|j [|j2 rs]]; simpl in *; try lia; [contradiction|].
+    destruct Hi as [->|[]]. reflexivity. }
+  assert (P1 : parent ds i' = Some i) by (eapply Hpar; eauto).
+  assert (P2 : parent ds i = Some i) by (eapply Hpar; eauto).
+  apply (cycle_rejected F prime ds i' q' i Hm Hin) with (es := es); [| |exact E].
+  - eapply reach_step; [exact P1|constructor].
+  - exists i. split; [exact P2|constructor].
+Qed.
 
 Definition ds_selfref : dataset := [
   ("@default", [
      Q (NIri "urn:c0") "name" (NLit "n0" xs) None; Q (NIri "urn:c0") "next" (NIri "urn:c0") None])].
 
-Theorem self_reference_rejected_refuted :
-  ~ (forall F prime ds, is_map ds -> self_reference ds ->
-     forall es, entries_from_rdf F prime ds <> Ok es).
-Proof.
-  intros H.
-  apply (H F0 97%Z ds_selfref) with
-    (es := [ {| e_key := [PStr "next"; PStr "name"]; e_val := XStr "n0"; e_dt := xs |};
-             {| e_key := [PStr "next"]; e_val := XStr "urn:c0"; e_dt := "" |} ]).
-  - unfold is_map. simpl. repeat constructor; simpl; intuition discriminate.
-  - exists ("@default", 1%nat), (Q (NIri "urn:c0") "next" (NIri "urn:c0") None), (RIri "urn:c0").
-    repeat split; reflexivity.
-  - vm_compute. reflexivity.
-Qed.
+Example ds_selfref_err : is_err (entries_from_rdf F0 97 ds_selfref) = true.
+Proof. vm_compute. reflexivity. Qed.
